@@ -2,7 +2,8 @@
 (* C28 I-layer: what HttpHdrRange::parseInit / HttpHdrRangeSpec::parseInit / canonize do TODAY, including the named
    deviations from RangeHdr (the P-layer):
      D1 (F9)  positions are read by strtoll(): leading blanks, a sign and unchecked trailing bytes are tolerated
-     D2 (F4)  last-byte-pos = 2^63-1 makes last_pos+1 wrap; the spec gets length 0 and is later dropped as unsatisfiable
+     D2       last-byte-pos = 2^63-1 is refused as unsupported (last_pos+1 is not representable; F4 repaired in 4f82d4d),
+              so the whole header is ignored
      D3       a position that does not fit int64 makes the whole header ignored
    Parsed specs are reported the way the code stores them: offset/length, -1 (Unknown) for an absent part. *)
 EXTENDS RangeHdr, SynCList, IntParse
@@ -23,7 +24,7 @@ ISpecOf(e) ==
        ELSE LET r2 == OffsetRef(SubSeq(e, p + 1, Len(e))) IN
             IF ~(r2.ok /\ ~r2.neg) THEN BadI
             ELSE IF Cmp(r2.mag, r1.mag) < 0 THEN BadI
-            ELSE IF r2.mag = Max63 THEN [o |-> Pos(r1.mag), l |-> Pos(<<>>)]                  \* D2
+            ELSE IF r2.mag = Max63 THEN BadI                                                 \* D2
             ELSE [o |-> Pos(r1.mag), l |-> Pos(Sub(Add(r2.mag, One), r1.mag))]
 RECURSIVE ISpecs(_)
 \* parsing stops at the first bad item and forgets everything
